@@ -28,6 +28,7 @@ func bridgeScratch() string {
 	if bridgeDir == "" {
 		d, err := os.MkdirTemp("", "verif-bridge")
 		must(err)
+		cleanups = append(cleanups, func() { os.RemoveAll(d) })
 		os.WriteFile(filepath.Join(d, "a.go"), []byte("x"), 0o644)
 		os.WriteFile(filepath.Join(d, "b.txt"), []byte("x"), 0o644)
 		os.MkdirAll(filepath.Join(d, "d"), 0o755)
